@@ -15,7 +15,10 @@ def compare(g, text, version, fail):
         either = want.get((s.name, "containment_either"), [])
         for key in KEYS:
             try:
-                got = sorted(state.canon_ident(state.ident(l), version) for l in getattr(s, key))
+                members = list(getattr(s, key))
+                if not all(isinstance(l, gfapy.Line) for l in members):
+                    fail("collection-holds-non-line:%s" % key, "%s.%s = %s" % (s.name, key, [str(l) for l in members])); continue
+                got = sorted(state.canon_ident(state.ident(l), version) for l in members)
             except Exception as e:
                 fail("collection-raises-%s" % type(e).__name__, "%s.%s" % (s.name, key)); continue
             w = list(want.get((s.name, key), []))
@@ -35,6 +38,8 @@ def compare(g, text, version, fail):
                 fail("neighbours-differ", "%s: %s vs %s" % (s.name, nb, wn))
         except gfapy.Error:
             pass
+        except Exception as e:
+            fail("neighbours-raises-%s" % type(e).__name__, "%s: %s" % (s.name, harness.short(e, 100)))
 
 
 def check(case):
